@@ -35,7 +35,9 @@ pub(crate) fn named(attr: &StructAttr, ts_name: Expr, fields: &FieldsNamed) -> R
     }
 
     let fields = quote!(<[String]>::join(&[#(#formatted_fields),*], " "));
-    let flattened = quote!(<[String]>::join(&[#(#flattened_fields),*], " & "));
+    // `intersect` combines `{ ... } & { ... }` into just one `{ ... }`. Not necessary, but it
+    // results in simpler type definitions.
+    let flattened = quote!(#crate_rename::__private::intersect(&[#(#flattened_fields),*]));
 
     let inline = match (formatted_fields.len(), flattened_fields.len()) {
         (0, 0) => quote!("{  }".to_owned()),
@@ -66,22 +68,20 @@ pub(crate) fn named(attr: &StructAttr, ts_name: Expr, fields: &FieldsNamed) -> R
             }
         }},
         (0, _) => quote!(#flattened),
-        (_, _) => quote!(format!("{{ {} }} & {}", #fields, #flattened)),
+        (_, _) => quote!(#crate_rename::__private::intersect(&[format!("{{ {} }}", #fields), #flattened])),
     };
 
     let inline_flattened = match (formatted_fields.len(), flattened_fields.len()) {
         (0, 0) => quote!("{  }".to_owned()),
         (_, 0) => quote!(format!("{{ {} }}", #fields)),
         (0, _) => quote!(#flattened),
-        (_, _) => quote!(format!("{{ {} }} & {}", #fields, #flattened)),
+        (_, _) => quote!(#crate_rename::__private::intersect(&[format!("{{ {} }}", #fields), #flattened])),
     };
 
     Ok(DerivedTS {
         crate_rename,
-        // the `replace` combines `{ ... } & { ... }` into just one `{ ... }`. Not necessary, but it
-        // results in simpler type definitions.
-        inline: quote!(#inline.replace(" } & { ", " ")),
-        inline_flattened: Some(quote!(#inline_flattened.replace(" } & { ", " "))),
+        inline,
+        inline_flattened: Some(inline_flattened),
         docs: attr.docs.clone(),
         dependencies,
         export: attr.export,
